@@ -4,7 +4,7 @@ CONSTANTS
     Nodes = {n1, n2}
     MaxNum = 1
     MaxCid = 2
-    MaxSteps = 3
+    MaxSteps = 2
     FindPrefersDirectChild = FALSE
     ExcuseDecoy = TRUE
 SPECIFICATION Spec
